@@ -439,6 +439,7 @@ struct tester
                     }
                     // (5) assign(initializer_list)
                     {
+                        static_assert(C14_MAXN <= 6, "the initializer_list switch handles up to six elements");
                         Value t[6] = {};
                         for(std::size_t i = 0; i < L; i++)
                             t[i] = static_cast<Value>(in[i]);
@@ -451,7 +452,8 @@ struct tester
                         case 2: as = VRT_TRAPPED(ret = static_cast<std::size_t>(a.assign({t[0], t[1]}) - a.begin())); break;
                         case 3: as = VRT_TRAPPED(ret = static_cast<std::size_t>(a.assign({t[0], t[1], t[2]}) - a.begin())); break;
                         case 4: as = VRT_TRAPPED(ret = static_cast<std::size_t>(a.assign({t[0], t[1], t[2], t[3]}) - a.begin())); break;
-                        default: as = VRT_TRAPPED(ret = static_cast<std::size_t>(a.assign({t[0], t[1], t[2], t[3], t[4]}) - a.begin())); break;
+                        case 5: as = VRT_TRAPPED(ret = static_cast<std::size_t>(a.assign({t[0], t[1], t[2], t[3], t[4]}) - a.begin())); break;
+                        default: as = VRT_TRAPPED(ret = static_cast<std::size_t>(a.assign({t[0], t[1], t[2], t[3], t[4], t[5]}) - a.begin())); break;
                         }
                         check(5, -1, init, in, L, buf, ret, e, as);
                     }
